@@ -314,6 +314,8 @@ func checkC02(c *core.Ctx, l *core.Ledger) {
 	wireSwitchExhaustive(c, l, "EXH", "wire", "Value.Get", nil, false)
 	wireSwitchExhaustive(c, l, "EXH", "wire", "Value.String", nil, false)
 	l.Floor("EXH", 7)
+	// decoded binaries and strings must not be views of memory the (pooled) reader keeps and reuses
+	checkFreshResults(c, l, "FRESH-RESULT", []string{"protocol/binary"})
 
 	// 3/4. WSEQ / RSEQ against the frozen table
 	if m.wprim == nil {
